@@ -186,5 +186,22 @@ class C10(Prop):
         classes.append('accepted-and-defs-checked' if exp is not None else 'accepted')
         return OK(False, classes)
 
+    def fuzz_campaign(self, tier, seed):
+        """thorough tier: coverage-guided campaign through the same decision function; every failure is re-decided here"""
+        from .. import fuzzdrv
+        from ..runner import OK
+        if tier != 'thorough':
+            return []
+        info, fails = fuzzdrv.campaign(self.id, seed)
+        self.fuzz_info = info
+        out = []
+        for f in fails:
+            case = f['case']
+            out.append((case, self.decide(case)))
+        return out
+
+    def extra_checks(self, tier, seed):
+        return self.fuzz_campaign(tier, seed)
+
 
 PROP = C10()
